@@ -124,6 +124,7 @@ pub fn run(bin: &Path, opts: &RunOpts) -> Result<RunOut, String> {
             let _ = std::fs::write(s, &stale);
         }
     }
+    crate::engine::watchdog_note_binary();
     let t0 = std::time::Instant::now();
     let out = cmd.output().map_err(|e| format!("cannot spawn {}: {e}", bin.display()))?;
     RUNS.fetch_add(1, std::sync::atomic::Ordering::Relaxed);
